@@ -366,6 +366,8 @@ def cop(o):
 def cval_any(x):
     if x is None:
         return "VNone"
+    if isinstance(x, dict) and "__us__" in x:
+        return f"(VTime {cz(x['__us__'])})"
     if isinstance(x, datetime):
         return f"(VTime {cz(us_of(x))})"
     if isinstance(x, str):
